@@ -230,7 +230,7 @@ def structural_impls(ctx):
 
 TEXT_OP = re.compile(r'(?:<impl str>)::(trim\w*|replace\w*|to_lowercase|to_uppercase|to_ascii_\w+|strip_prefix|strip_suffix|split\w*|rsplit\w*|lines|repeat|get|get_mut|escape_\w+)$'
                      r'|string::String::(truncate|retain|remove|pop|insert|insert_str|drain|replace_range|clear|split_off)$'
-                     r'|(String) as std::iter::FromIterator<char>>::from_iter$|(?:str|String) as std::ops::(Index)(?:Mut)?<|(from_utf8_lossy)$'
+                     r'|(String) as std::iter::FromIterator<char>>::from_iter$|(?:str|String) as std::ops::(Index)(?:Mut)?<|<impl std::ops::(Index)(?:Mut)?<.*> for str>::index|(from_utf8_lossy)$'
                      r'|char::methods::<impl char>::(to_ascii_\w+|to_lowercase|to_uppercase)$')
 # layer -> method -> (how many sites, why they are harmless); reviewed on the pinned tree
 TEXT_OPS_ALLOWED = {
